@@ -788,6 +788,8 @@ class HeavyHitters:
         -------
         int
         """
+        # As in add(), only the first max_key_len bytes identify a key
+        key = key[: int(self.max_key_len)]
         key_len = len(key)
         max_count = _max_count(
             self.lhh,
